@@ -29,7 +29,8 @@ NR = "ariadne_codegen.contrib.no_reimports.NoReimportsPlugin"
 ID = "vf_plugins.IdentityPlugin"
 MA = "vf_plugins.MarkerA"
 MB = "vf_plugins.MarkerB"
-SHORT = {SR: "ShorterResults", EO: "ExtractOperations", FR: "ClientForwardRefs", NR: "NoReimports", ID: "Identity", MA: "MarkerA", MB: "MarkerB"}
+FR_MODULE = "ariadne_codegen.contrib.client_forward_refs"  # module-path spelling: every Plugin subclass found in the module
+SHORT = {FR_MODULE: "ClientForwardRefs(module path)", SR: "ShorterResults", EO: "ExtractOperations", FR: "ClientForwardRefs", NR: "NoReimports", ID: "Identity", MA: "MarkerA", MB: "MarkerB"}
 
 
 def plugin_lists() -> List[List[str]]:
@@ -213,6 +214,7 @@ def worker(case: Dict[str, Any]) -> CaseResult:
             plist = res["plist"]
             fl = sorted(feats | {"plugins." + label})
             shorter = SR in plist
+            plist_norm = [FR if p_ == FR_MODULE else p_ for p_ in plist]
             marker_ops = MA in plist or MB in plist
             for key, b in base["obs"].items():
                 o = res["obs"].get(key)
@@ -244,7 +246,7 @@ def worker(case: Dict[str, Any]) -> CaseResult:
                         want = next(iter(fields.values()))
                         if ov != want:
                             mech = "c15:shorter-single:" + label
-                            if FR in plist and plist.index(FR) < plist.index(SR) and ov == one:
+                            if FR in plist_norm and plist_norm.index(FR) < plist_norm.index(SR) and ov == one:
                                 mech = "shorter-results-no-effect-after-forward-refs"
                             violations.append(Violation(PROP, "shorter-results-single-field", "[%s] %s: returned %s, the single top-level field of the unplugged result is %s" % (
                                 label, key, json.dumps(ov)[:300], json.dumps(want)[:300]), fl, replay_case, mech=mech))
@@ -269,7 +271,7 @@ def worker(case: Dict[str, Any]) -> CaseResult:
                     if not sent <= consts:
                         violations.append(Violation(PROP, "extract-operations-identical", "[%s] operation strings sent by the unplugged client are not all constants of the operations module (missing %d)" % (
                             label, len(sent - consts)), fl, replay_case, mech="c15:extract-identical:" + label))
-            if FR in plist and not shorter:
+            if FR in plist_norm and not shorter:
                 count("forward_ref_hint_checks")
                 if res["hints"] != base["hints"]:
                     diff = {k: (res["hints"].get(k), base["hints"].get(k)) for k in set(res["hints"]) | set(base["hints"]) if res["hints"].get(k) != base["hints"].get(k)}
@@ -280,6 +282,17 @@ def worker(case: Dict[str, Any]) -> CaseResult:
                 body = [n for n in ast.parse(init).body if not isinstance(n, ast.Expr)]
                 if body and not marker_ops:
                     violations.append(Violation(PROP, "no-reimports-empties-init", "[%s] __init__ still has statements: %s" % (label, init[:200]), fl, replay_case, mech="c15:no-reimports:" + label))
+            if plist == [SR, FR_MODULE] and "ShorterResults+ClientForwardRefs" in results:
+                other = results["ShorterResults+ClientForwardRefs"]
+                count("module_path_spelling_checks")
+                for f in sorted(p.name for p in other["dir"].glob("*.py")):
+                    a = (other["dir"] / f).read_bytes().replace(other["dir"].name.encode(), b"PKG")
+                    p2 = res["dir"] / f
+                    bb = p2.read_bytes().replace(res["dir"].name.encode(), b"PKG") if p2.is_file() else b"<missing>"
+                    if a != bb:
+                        violations.append(Violation(PROP, "plugins-in-configuration-order", "[%s] %s differs from the package generated with the class-path spelling of the same list" % (label, f),
+                                                    fl, replay_case, mech="c15:module-path-order"))
+                        break
             if plist == [ID]:
                 count("identity_checks")
                 for f in sorted(p.name for p in base["dir"].glob("*")):
@@ -335,6 +348,10 @@ def run(tier: str, seed: int) -> int:
         c = cw.make_case(seed, i, tier=tier, n_ops=3)
         pl = [all_lists[(i * per_case + k) % len(all_lists)] for k in range(per_case)]
         pl.append([ID] if i % 2 == 0 else ([MA, MB] if i % 4 == 1 else [MB, MA]))
+        if i % 3 == 0:
+            # the same list spelled with a class path and with a module path must give byte-identical packages
+            pl.append([SR, FR])
+            pl.append([SR, FR_MODULE])
         c["plugin_lists"] = pl
         cases.append(c)
 
